@@ -149,24 +149,38 @@ func ruleS10(p *Prog, r *Report) {
 				ord++
 				exact := false
 				var counter ssa.Value
-				switch {
-				case sl.Low == nil && sl.High != nil:
-					// front region: High is the counter some fill indexes by
+				// linear forms over len(A), loop phis and constants: a fill at index I(P) (P = the counter's header
+				// phi, advanced by one per fill) fills {I(0..P-1)}; the view must be exactly that set:
+				// front I(P) = P with view [:P], back I(P) = len-1-P with view [len-P:]
+				lo, okLo := linOf(sl.Low, mk)
+				hi, okHi := linOf(sl.High, mk)
+				if sl.Low == nil {
+					lo, okLo = linForm{}, true
+				}
+				if sl.High == nil {
+					hi, okHi = linForm{lenC: 1}, true
+				}
+				if okLo && okHi {
 					for _, fl := range fills {
-						if sameValue(fl.idx, sl.High) {
-							exact, counter = true, sl.High
+						fi, ok := linOf(fl.idx, mk)
+						if !ok || len(fi.phis) != 1 {
+							continue
 						}
-					}
-				case sl.High == nil && sl.Low != nil:
-					// back region: Low = len(A) - c, with a fill at len(A) - 1 - c
-					if lo, ok := canonConv(sl.Low).(*ssa.BinOp); ok && lo.Op == token.SUB && isLenOfSlice(lo.X, mk) {
-						for _, fl := range fills {
-							if fi, ok := canonConv(fl.idx).(*ssa.BinOp); ok && fi.Op == token.SUB && sameValue(fi.Y, lo.Y) {
-								if in1, ok := canonConv(fi.X).(*ssa.BinOp); ok && in1.Op == token.SUB && isLenOfSlice(in1.X, mk) {
-									if k, isK := constInt(in1.Y); isK && k == 1 {
-										exact, counter = true, lo.Y
-									}
-								}
+						var ph *ssa.Phi
+						var pc int64
+						for k, v := range fi.phis {
+							ph, pc = k, v
+						}
+						switch {
+						case pc == 1 && fi.lenC == 0 && fi.c == 0:
+							// front: view [0 : P]
+							if lo.isZero() && hi.lenC == 0 && hi.c == 0 && len(hi.phis) == 1 && hi.phis[ph] == 1 {
+								exact, counter = true, ph
+							}
+						case pc == -1 && fi.lenC == 1 && fi.c == -1:
+							// back: view [len-P : len]
+							if hi.lenC == 1 && hi.c == 0 && len(hi.phis) == 0 && lo.lenC == 1 && lo.c == 0 && len(lo.phis) == 1 && lo.phis[ph] == -1 {
+								exact, counter = true, ph
 							}
 						}
 					}
@@ -657,4 +671,56 @@ func (p *Prog) wrapperRetires(g *ssa.Function) bool {
 		return false
 	}
 	return successReturnAvoiding(g, nil, isDel) == nil
+}
+
+// linForm: coefLen*len(A) + sum(coef*phi) + c
+type linForm struct {
+	lenC int64
+	phis map[*ssa.Phi]int64
+	c    int64
+}
+
+func (l linForm) isZero() bool { return l.lenC == 0 && l.c == 0 && len(l.phis) == 0 }
+
+// linOf expresses v as a linear form over len(arr), loop phis (a phi whose only non-self source is an increment of
+// itself is taken as the symbol; an incremented counter P+1 is P plus one) and constants.
+func linOf(v ssa.Value, arr ssa.Value) (linForm, bool) {
+	out := linForm{phis: map[*ssa.Phi]int64{}}
+	var rec func(v ssa.Value, sign int64, depth int) bool
+	rec = func(v ssa.Value, sign int64, depth int) bool {
+		if v == nil || depth > 12 {
+			return false
+		}
+		v = canonConv(v)
+		if k, ok := constInt(v); ok {
+			out.c += sign * k
+			return true
+		}
+		if isLenOfSlice(v, arr) {
+			out.lenC += sign
+			return true
+		}
+		switch x := v.(type) {
+		case *ssa.Phi:
+			out.phis[x] += sign
+			return true
+		case *ssa.BinOp:
+			switch x.Op {
+			case token.ADD:
+				return rec(x.X, sign, depth+1) && rec(x.Y, sign, depth+1)
+			case token.SUB:
+				return rec(x.X, sign, depth+1) && rec(x.Y, -sign, depth+1)
+			}
+		}
+		return false
+	}
+	if !rec(v, 1, 0) {
+		return linForm{}, false
+	}
+	for k, c := range out.phis {
+		if c == 0 {
+			delete(out.phis, k)
+		}
+	}
+	return out, true
 }
